@@ -246,6 +246,9 @@ type Res struct {
 	Ver     int        `json:"ver"`
 	Apis    [][]string `json:"apis"`
 	Weights int        `json:"weights"`
+	// ts "p", "q": 0 = on its TCP listener, n > 0 = on the TLS passthrough listener with host h<n>-<name>.example.com
+	Mode int  `json:"mode,omitempty"`
+	Pt   *int `json:"pt"` // model: identity of the passthrough host (nil: not a passthrough TransportServer)
 }
 
 type shape struct {
@@ -260,7 +263,7 @@ var pool = map[string]map[string]shape{
 	"ing":   {"a": {nup: 1}, "b": {nup: 2}, "c": {nup: 3}},
 	"merge": {"m": {minions: 1}, "n": {minions: 2}},
 	"vs":    {"v": {nup: 1}, "w": {nup: 2, split: true}, "x": {nup: 2}, "y": {nup: 1, xroute: true}},
-	"ts":    {"t": {nup: 1}, "u": {nup: 2}},
+	"ts":    {"t": {nup: 1}, "u": {nup: 2}, "p": {nup: 1}, "q": {nup: 1}},
 }
 
 func poolNames(kind string) []string {
@@ -323,6 +326,16 @@ func fill(r *Res, plus, dynw bool) {
 			g = append(g, fmt.Sprintf("ts_%s_%s_u%d", ns, r.Name, i))
 		}
 		r.Apis = append(r.Apis, g)
+		if r.Mode > 0 {
+			m := r.Mode
+			r.Pt = &m
+			// the host of a passthrough TransportServer is rendered in its stream config only by the Plus template (status_zone)
+			if plus {
+				r.Ver += 10000 * r.Mode
+			} else {
+				r.Ver += 10000
+			}
+		}
 	}
 }
 
@@ -461,6 +474,10 @@ func buildTS(r Res) *configs.TransportServerEx {
 			Action:             &conf_v1.TransportServerAction{Pass: "u0"},
 		},
 	}
+	if r.Mode > 0 {
+		ts.Spec.Listener = conf_v1.TransportServerListener{Name: conf_v1.TLSPassthroughListenerName, Protocol: conf_v1.TLSPassthroughListenerProtocol}
+		ts.Spec.Host = fmt.Sprintf("h%d-%s.example.com", r.Mode, r.Name)
+	}
 	eps := map[string][]string{}
 	for i := 0; i < sh.nup; i++ {
 		un := fmt.Sprintf("u%d", i)
@@ -468,9 +485,12 @@ func buildTS(r Res) *configs.TransportServerEx {
 		ts.Spec.Upstreams = append(ts.Spec.Upstreams, conf_v1.TransportServerUpstream{Name: un, Service: svc, Port: 5000 + i})
 		eps[fmt.Sprintf("%s/%s:%d", ns, svc, 5000+i)] = endpointsFor(r.EV, i)
 	}
-	port := 9000
+	port := 9000 + int(r.Name[0]-'p')&3
 	if r.Name == "u" {
 		port = 9001
+	}
+	if r.Mode > 0 {
+		port = 0
 	}
 	return &configs.TransportServerEx{TransportServer: ts, Endpoints: eps, ListenerPort: port,
 		ExternalNameSvcs: map[string]bool{}, PodsByIP: map[string]string{}}
@@ -741,6 +761,17 @@ func (g *gen) res(kind string) Res {
 	}
 	g.sv[id], g.ev[id] = sv, ev
 	r := Res{Kind: kind, Name: name, SV: sv, EV: ev}
+	if kind == "ts" && (name == "p" || name == "q") {
+		// host edits, and switches between the passthrough listener and a TCP listener, often with nothing else changing
+		if g.r.Chance(1, 2) {
+			g.sv[id+"#mode"] = g.r.Intn(4)
+			if g.r.Chance(1, 2) {
+				r.SV, g.sv[id] = g.sv[id+"#prev"], g.sv[id+"#prev"]
+			}
+		}
+		g.sv[id+"#prev"] = r.SV
+		r.Mode = g.sv[id+"#mode"]
+	}
 	fill(&r, g.plus, g.dynw)
 	return r
 }
@@ -754,7 +785,7 @@ func (g *gen) endpRes(kind string) Res {
 		ev = g.r.Intn(4)
 	}
 	g.ev[id] = ev
-	r := Res{Kind: kind, Name: name, SV: g.sv[id], EV: ev}
+	r := Res{Kind: kind, Name: name, SV: g.sv[id], EV: ev, Mode: g.sv[id+"#mode"]}
 	fill(&r, g.plus, g.dynw)
 	return r
 }
@@ -807,8 +838,18 @@ func (g *gen) op() Op {
 		return Op{Op: "add", Res: &r}
 	case x < 27:
 		return Op{Op: "addvss", Rs: g.distinct("vs", 1+g.r.Intn(2), g.res)}
-	case x < 39:
+	case x < 36:
 		return Op{Op: "addres", Rs: g.mixed(), Always: g.r.Chance(1, 3)}
+	case x < 39:
+		// a passthrough TransportServer whose host alone is edited (or that moves between the passthrough and a TCP listener),
+		// through the one operation that reloads only when a file changed
+		name := vh.Pick(g.r, []string{"p", "q"})
+		id := "ts/" + name
+		g.sv[id+"#mode"] = (g.sv[id+"#mode"] + 1 + g.r.Intn(3)) % 4
+		r := Res{Kind: "ts", Name: name, SV: g.sv[id], EV: g.ev[id], Mode: g.sv[id+"#mode"]}
+		g.sv[id+"#prev"] = r.SV
+		fill(&r, g.plus, g.dynw)
+		return Op{Op: "addres", Rs: []Res{r}}
 	case x < 49:
 		k := vh.Pick(g.r, kinds)
 		n := vh.Pick(g.r, poolNames(k))
@@ -929,6 +970,21 @@ func corpusCfg() []Case {
 		Ops: []Op{{Op: "enable"}, {Op: "add", Res: mk("vs", "y", 0, 0, true, false)},
 			{Op: "endp", Kind: "vs", Rs: []Res{*mk("vs", "y", 0, 1, true, false)}},
 			{Op: "endp", Kind: "vs", Rs: []Res{*mk("vs", "y", 0, 2, true, false), *mk("vs", "v", 0, 1, true, false)}}}})
+	// TLS passthrough: a host edit, and a switch to a TCP listener and back, with the conditional reload of AddOrUpdateResources
+	mkp := func(name string, sv, ev, mode int, plus bool) Res {
+		r := Res{Kind: "ts", Name: name, SV: sv, EV: ev, Mode: mode}
+		fill(&r, plus, false)
+		return r
+	}
+	for _, plus := range []bool{false, true} {
+		out = append(out, Case{Class: "corpus-passthrough", Plus: plus, RFail: []int{}, AFail: []int{},
+			Ops: []Op{{Op: "enable"}, {Op: "addres", Rs: []Res{mkp("p", 0, 0, 1, plus), mkp("q", 0, 0, 1, plus)}},
+				{Op: "addres", Rs: []Res{mkp("p", 0, 0, 2, plus)}}, {Op: "addres", Rs: []Res{mkp("p", 0, 0, 2, plus)}},
+				{Op: "addres", Rs: []Res{mkp("p", 0, 0, 0, plus)}}, {Op: "addres", Rs: []Res{mkp("p", 0, 0, 3, plus)}},
+				{Op: "endp", Kind: "ts", Rs: []Res{mkp("q", 0, 1, 1, plus)}},
+				{Op: "del", Kind: "ts", Name: "q", File: fileOf("ts", "q")}, {Op: "addres", Rs: []Res{mkp("p", 0, 0, 1, plus)}},
+				{Op: "updatetss", Rs: []Res{mkp("q", 0, 0, 2, plus)}, Names: []string{"p"}, Files: []string{fileOf("ts", "p")}}}})
+	}
 	// content comparison: AddOrUpdateResources with unchanged content does not reload
 	out = append(out, Case{Class: "corpus-unchanged", Plus: false, DynW: false, RFail: []int{}, AFail: []int{},
 		Ops: []Op{{Op: "enable"}, {Op: "addres", Rs: []Res{*mk("ing", "a", 0, 0, false, false), *mk("ts", "t", 0, 0, false, false)}},
@@ -1082,9 +1138,14 @@ var ctlPool = map[string]ctlRes{
 	"w": {kind: "vs", task: "virtualserver", svcs: []string{"w-svc0", "w-svc1"}, split: true},
 	"t": {kind: "ts", task: "transportserver", svcs: []string{"t-svc"}},
 	"s": {kind: "ing", task: "ingress", svcs: []string{"s-svc"}, scaled: true},
+	// mergeable Ingress: master "m" (no paths) and its minion "mm" (path /mm -> mm-svc) are two Ingress objects, one resource
+	"m": {kind: "merge", task: "ingress", svcs: []string{"mm-svc"}},
 }
-var ctlNames = []string{"a", "b", "s", "v", "w", "t"}
-var ctlSvcs = []string{"a-svc", "b-svc", "s-svc", "v-svc", "w-svc0", "w-svc1", "t-svc", "z-svc"}
+var ctlNames = []string{"a", "b", "s", "m", "v", "w", "t"}
+var ctlSvcs = []string{"a-svc", "b-svc", "s-svc", "mm-svc", "v-svc", "w-svc0", "w-svc1", "t-svc", "z-svc"}
+
+// objects the ingress tasks can be about: the resources of kind ing/merge, and the minion
+var ctlIngressObjs = []string{"a", "b", "s", "m", "mm"}
 
 // the controller's own namespace, Service and special Secrets
 const nicNS = "nginx-ingress"
@@ -1191,15 +1252,27 @@ func (w *world) res(name string) Res {
 	r := Res{Kind: p.kind, Name: name, SV: w.known[name], File: fileOf(p.kind, name)}
 	ver, mul := w.known[name]*1000, 1
 	for _, s := range p.svcs {
+		if p.kind == "merge" && w.known[name]%10 == 0 {
+			break // no minion: no upstream, the endpoints do not appear
+		}
 		ver += w.ev[s] * mul
 		mul *= 10
 	}
 	if p.scaled && w.replicas > 1 {
 		ver += 100 * w.replicas
 	}
+	if p.kind == "merge" && w.known[name]%10 == 0 {
+		ver = 0 // a master without minions has no location: nothing of its spec variant is rendered
+	}
 	r.Ver = ver
 	g := []string{}
 	switch p.kind {
+	case "merge":
+		r.Apis = [][]string{}
+		if w.known[name]%10 != 0 {
+			r.Apis = append(r.Apis, []string{fmt.Sprintf("%s-mm-%s.example.com-%s-80", ns, name, p.svcs[0])})
+		}
+		return r
 	case "ing":
 		g = append(g, fmt.Sprintf("%s-%s-%s.example.com-%s-80", ns, name, name, p.svcs[0]))
 	case "vs":
@@ -1222,7 +1295,7 @@ func (w *world) all() []Res {
 		_ = k
 	}
 	// UpdateConfig then processes IngressExes, VirtualServerExes, TransportServerExes in that order
-	for _, k := range []string{"ing", "vs", "ts"} {
+	for _, k := range []string{"ing", "merge", "vs", "ts"} {
 		for _, n := range ctlNames {
 			if ctlPool[n].kind != k {
 				continue
@@ -1240,6 +1313,31 @@ func (w *world) predict(t *Task) {
 	t.Work, t.Found, t.Reports = []Op{}, false, true
 	switch t.Kind {
 	case "ingress", "virtualserver", "transportserver":
+		if t.Name == "m" || t.Name == "mm" {
+			// the mergeable Ingress: what the controller configures is a function of both objects
+			switch t.Act {
+			case "set":
+				w.obj[t.Name] = t.SV
+			case "delete":
+				delete(w.obj, t.Name)
+			}
+			if msv, ok := w.obj["m"]; ok {
+				comp := msv * 10
+				if mmsv, has := w.obj["mm"]; has {
+					comp += 1 + mmsv
+				}
+				if k, was := w.known["m"]; !was || k != comp {
+					w.known["m"] = comp
+					r := w.res("m")
+					t.Work = append(t.Work, Op{Op: "add", Res: &r})
+				}
+			} else if _, was := w.known["m"]; was {
+				delete(w.known, "m")
+				t.Work = append(t.Work, Op{Op: "del", Kind: "merge", Name: "m", File: fileOf("merge", "m")})
+				t.Reports = false
+			}
+			break
+		}
 		p := ctlPool[t.Name]
 		switch t.Act {
 		case "set":
@@ -1292,7 +1390,7 @@ func (w *world) predict(t *Task) {
 					continue
 				}
 				for _, s := range p.svcs {
-					if s == t.Name {
+					if s == t.Name && !(p.kind == "merge" && w.known[n]%10 == 0) {
 						t.Found = true
 						t.Work = append(t.Work, Op{Op: "endp", Kind: p.kind, Rs: []Res{w.res(n)}})
 					}
@@ -1372,6 +1470,15 @@ func sliceObj(svc string, ev int) *discovery_v1.EndpointSlice {
 }
 
 func ctlIngress(name string, sv int) *networking.Ingress {
+	if name == "m" {
+		return ingress("m", "m.example.com", sv, "master", nil, nil)
+	}
+	if name == "mm" {
+		ing := ingress("mm", "m.example.com", sv, "minion", []string{"/mm"}, []string{"mm-svc"})
+		pt := networking.PathTypePrefix
+		ing.Spec.Rules[0].HTTP.Paths[0].PathType = &pt
+		return ing
+	}
 	ing := ingress(name, name+".example.com", sv, "", []string{"/"}, []string{ctlPool[name].svcs[0]})
 	pt := networking.PathTypePrefix
 	ing.Spec.Rules[0].HTTP.Paths[0].PathType = &pt
@@ -1685,8 +1792,11 @@ func genTask(r *vh.Rng, w *world) Task {
 			t.Act = "touch"
 		}
 	case x < 40:
-		n := vh.Pick(r, ctlNames)
-		t = Task{Kind: ctlPool[n].task, Name: n}
+		n := vh.Pick(r, append(append([]string{}, ctlNames...), "mm", "mm"))
+		t = Task{Kind: "ingress", Name: n}
+		if p, ok := ctlPool[n]; ok {
+			t.Kind = p.task
+		}
 		switch y := r.Intn(10); {
 		case y < 5:
 			t.Act, t.SV = "set", r.Intn(3)
@@ -1923,6 +2033,20 @@ func corpusCtl() []Case {
 			eps("z-svc", "set", 1, 3), eps("z-svc", "set", 3, 2), nic(1, 1), eps("z-svc", "set", 2, 0)})
 	add("corpus-replicas", true, false, []int{2}, []int{},
 		[]Task{ing("s", "set", 0, 0), ing("a", "set", 0, 0), nic(2, 0), nic(3, 0)})
+	// an EndpointSlice event whose reload fails, for every kind of resource using the Service (OSS: the reload itself;
+	// Plus: the API push fails, then the fall-back reload): the failure must reach the resource
+	vsT := func(n string, q int) Task { return Task{Kind: "virtualserver", Name: n, Act: "set", QLen: q} }
+	tsT := func(n string, q int) Task { return Task{Kind: "transportserver", Name: n, Act: "set", QLen: q} }
+	for _, plus := range []bool{false, true} {
+		af := []int{}
+		if plus {
+			af = []int{0}
+		}
+		add("corpus-endp-reloadfail-ing", plus, false, []int{1}, af, []Task{ing("a", "set", 0, 0), eps("a-svc", "set", 1, 0), eps("a-svc", "set", 2, 0)})
+		add("corpus-endp-reloadfail-merge", plus, false, []int{1}, af, []Task{ing("m", "set", 0, 1), ing("mm", "set", 0, 0), eps("mm-svc", "set", 1, 0), eps("mm-svc", "set", 2, 0)})
+		add("corpus-endp-reloadfail-vs", plus, false, []int{1}, af, []Task{vsT("v", 0), eps("v-svc", "set", 1, 0), eps("v-svc", "set", 2, 0)})
+		add("corpus-endp-reloadfail-ts", plus, false, []int{1}, af, []Task{tsT("t", 0), eps("t-svc", "set", 1, 0), eps("t-svc", "set", 2, 0)})
+	}
 	// tasks of a namespace that is not watched any more, at every position: last of the start-up queue, first / middle /
 	// last of a batch that changed files, alone
 	stale := func(kind string, q int) Task { return Task{Kind: "stale", Name: kind, Act: "touch", QLen: q} }
